@@ -145,7 +145,12 @@ fn campaign_inner(ctx: &mut Ctx, target: &'static str, section: &str, total_runs
             .arg(format!("-max_len={max_len}"))
             .arg("-len_control=0")
             .arg("-timeout=30")
-            .arg("-rss_limit_mb=4096")
+            // libFuzzer's RSS limit reads getrusage's ru_maxrss, which a freshly exec'ed child inherits from
+            // the RSS of the process that spawned it: after the big sections of a thorough run this harness is
+            // larger than any sensible limit and every job would stop at once with an `oom-` artefact for the
+            // empty input. The limit on a single allocation stays; the resident size is watched below instead.
+            .arg("-rss_limit_mb=0")
+            .arg("-malloc_limit_mb=2048")
             .arg("-print_final_stats=1")
             .arg(format!("-dict={}", dict_path.display()))
             .arg(format!("-artifact_prefix={}/", art.display()))
@@ -181,7 +186,18 @@ fn campaign_inner(ctx: &mut Ctx, target: &'static str, section: &str, total_runs
                     ctx.infra_errors.push(format!("fuzz job {j} of {target} exceeded the wall-clock limit and was stopped"));
                     break;
                 },
-                Ok(None) => std::thread::sleep(std::time::Duration::from_millis(200)),
+                Ok(None) => {
+                    let rss_kb = std::fs::read_to_string(format!("/proc/{}/status", child.id()))
+                        .ok()
+                        .and_then(|s| s.lines().find(|l| l.starts_with("VmRSS:")).and_then(|l| l.split_whitespace().nth(1).and_then(|v| v.parse::<u64>().ok())))
+                        .unwrap_or(0);
+                    if rss_kb > 6 * 1024 * 1024 {
+                        let _ = child.kill();
+                        ctx.infra_errors.push(format!("fuzz job {j} of {target} grew beyond 6 GiB resident and was stopped"));
+                        break;
+                    }
+                    std::thread::sleep(std::time::Duration::from_millis(200))
+                },
             }
         }
         let status = child.wait();
